@@ -483,4 +483,58 @@ example : mapE PV.toOut (Gen.Parser.parser_parse (refExt .py) "now".toList {}) =
 
 end SourceTie
 
+/-! ### the pure-Python ISO 8601 parser as regenerated from the source (`Gen/IsoPy.lean`) raises nothing but `ValueError`s -/
+
+section RegeneratedIso
+open Pendulum.IsoPyGen
+
+/-- the post-processing half of the model's `pyParse` fails only with `ParserError` / `ValueError` -/
+theorem pyPost_VE (dg : PyD) (tg : Option PyT) : VE (pyPost dg tg) := by
+  intro k h
+  unfold pyPost at h
+  split at h
+  · rename_i heq; cases h; exact pyDateFields_VE _ k heq
+  · split at h
+    · split at h
+      · split at h
+        · exact mkTime_VE _ _ _ _ _ k h
+        · cases h; exact Or.inl rfl
+      · exact mkDate_VE _ _ _ k h
+    · repeat' split at h
+      all_goals first
+        | (cases h; exact Or.inl rfl)
+        | (rename_i heq; cases h; exact pyTimeFields_VE _ k heq)
+        | (exact mkTime_VE _ _ _ _ _ k h)
+        | (exact mkDateTime_VE _ _ _ _ _ _ _ _ k h)
+
+/-- **iso_source_total.** `parse_iso8601` (pure Python) after the match, as regenerated from the source, followed by the
+    standard-library constructor it calls: whatever the groups of the match, the only exceptions are `ParserError` and
+    `ValueError` — what `parse()`'s `suppress(ValueError)` chain catches (no `TypeError` from an absent group, no
+    `OverflowError` from the date arithmetic of a week date). -/
+theorem iso_source_total {V : Type} (ext : Gen.IsoPy.Ext V) (hx : ExtOk ext) (d : WD) (t : Option WT) (hd : d.valid)
+    (ht : ∀ x, t = some x → x.valid) (e : String)
+    (h : Gen.IsoPy.bindE (Gen.IsoPy.py_iso_datetime ext (dtGroups d t)) build = .error e) :
+    e = "ParserError" ∨ e = "ValueError" := by
+  rw [datetime_tie ext hx d t hd ht] at h
+  cases hp : pyPost d.py (t.map WT.py) with
+  | ok v => rw [hp] at h; cases h
+  | error k =>
+    rw [hp] at h
+    injection h with h
+    subst h
+    rcases pyPost_VE _ _ k hp with rfl | rfl
+    · exact Or.inl rfl
+    · exact Or.inr rfl
+
+/-- … and so does the week-date conversion on its own (the date arithmetic stays inside the year it was given) -/
+theorem iso_week_source_total {V : Type} (ext : Gen.IsoPy.Ext V) (hx : ExtOk ext) (ty tw : List Char) (twd : Option (List Char))
+    (hy : Dig 4 ty) (hw : Dig 2 tw) (hwd : ∀ t, twd = some t → Dig 1 t) (e : String)
+    (h : Gen.IsoPy.py_get_iso_8601_week ext (some ty) (some tw) twd = .error e) : e = "ParserError" ∨ e = "ValueError" := by
+  have := week_tie ext hx ty tw twd hy hw hwd
+  rw [h] at this
+  cases hm : pyWeek (val ty) (val tw) (twd.map val) with
+  | ok v => rw [hm] at this; exact this.elim
+  | error k => rw [hm] at this; exact this
+
+end RegeneratedIso
 end Pendulum.Props.C17
